@@ -76,7 +76,10 @@ def encircled_energy(data,
 
     rad = numpy.append(0, rad)
     ee = numpy.append(0, ee)
-    ee /= numpy.sum(data)
+    # (the total in double precision like the ring sums above: summed in the image's
+    # own type it overflows for float16 frames and differs from the last ring sum by
+    # a rounding error for float32 ones, so that the curve exceeded 1)
+    ee /= numpy.sum(data, dtype=float)
     # rad holds equivalent diameters up to that of the inscribed circle (2*dim)
     xi = numpy.linspace(0, 2 * dim, int(8 * dim))
     yi = numpy.interp(xi, rad, ee)
